@@ -54,6 +54,9 @@ func c15History(c *core.Ctx, r *core.Rand, tag string) {
 		{"key0/blind/nil-ctx", seeds[0], b, nil}, {"key1/blind/empty-ctx", seeds[1], b, []byte{}},
 		{"key0/blind/ctx-bit-flipped", seeds[0], b, flipBit(cx, 5)}, {"key1/other-blind/ctx", seeds[1], r.Bytes(32), cx},
 	}
+	for k := 0; k < 3; k++ {
+		pool = append(pool, inp{"key0/blind/protocol-string-as-ctx", seeds[0], b, []byte(SpecialStrings[r.IntN(len(SpecialStrings))])})
+	}
 	pubBuf, privBuf, blindBuf, ctxBuf := make([]byte, 32), make([]byte, 64), make([]byte, 32), make([]byte, 0, 64)
 	var trace []string
 	onlyBlind := len(tag)%2 == 1 || strings.HasSuffix(tag, "1") || strings.HasSuffix(tag, "5")
@@ -148,6 +151,16 @@ func runC15(c *core.Ctx) {
 			blind, bclass = pool[(i/5)%6], fmt.Sprintf("pool%d", (i/5)%6)
 		}
 		blind2 := pool[(i/5+1+i%4)%6]
+		if i%9 == 4 {
+			// arguments in a special relation: the blind is the public key's own encoding, or the seed
+			spk := stded.NewKeyFromSeed(seed)
+			if i%2 == 0 {
+				blind, bclass = clone(spk[32:]), "blind=public-key"
+			} else {
+				blind, bclass = clone(seed), "blind=seed"
+			}
+			c.Class("blind_in_special_relation_to_key")
+		}
 		var ctx []byte
 		switch i % 4 {
 		case 1:
